@@ -11,6 +11,7 @@ parameter sets and on real optimisations (trf / dogbox / lm) of a small decay sc
 """
 from __future__ import annotations
 
+import hashlib
 import json
 import math
 import warnings
@@ -20,6 +21,7 @@ import numpy as np
 
 from harness import core
 from harness.core import bool_, enc, lst, strs
+from harness.props import _c11_gen as gen
 
 PROP = "C11"
 REQUIRED_THEOREMS = [
@@ -28,12 +30,23 @@ REQUIRED_THEOREMS = [
     "fixed_values_survive_optimizer_set", "set_get_identity", "set_get_identity_real", "bounds_transport",
     "fromOpt_pos_partial", "fromOpt_pos_counterexample", "box_transport", "labels_index_everything", "history_row_is_all_parameters",
     "history_maps_back",
+    # the regenerated transcription of the source (Generated/C11Fns.lean) equals the model
+    "generated_eq_model_log_value", "generated_eq_model_toOpt", "generated_eq_model_setFromOpt",
+    "generated_eq_model_setExpr", "generated_eq_model_arrays", "generated_eq_model_set", "generated_eq_model_has_get",
+    # look-up, constructor / start value, copies and equality, standard-error space, history access
+    "lookup_exact", "start_value_handed_over_unvalidated", "start_feasible_iff", "copy_wellFormed",
+    "copy_and_dict_list_roundtrip", "copy_identity_counterexample", "params_eq_spec", "stderr_space",
+    "history_access", "history_row_i_maps_back",
 ]
 TRUSTED = [
-    "hand-written model lean/GlotaranModel/C11.lean of parameter.py (Parameter, _log_value, "
-    "get_value_and_bounds_for_optimization, set_value_from_optimization), parameters.py "
-    "(get_label_value_and_bounds_arrays, set_from_label_and_value_arrays, set_from_history), "
-    "parameter_history.py (append) and optimizer.py (standard-error loop), tied by differential execution only",
+    "the ast -> Lean translator harness/props/_c11_gen.py and its hand-written reading of Python constructs "
+    "(lean/GlotaranModel/C11Py.lean): _log_value, get_value_and_bounds_for_optimization, set_value_from_optimization, "
+    "set_transformed_expression, Parameters.has / get / get_label_value_and_bounds_arrays / set_from_label_and_value_arrays "
+    "are regenerated from the source on every run and proved equal to the model (generated_eq_model_*)",
+    "hand-written model lean/GlotaranModel/C11.lean of the rest: update_parameter_expression (a parameter of the model), "
+    "Parameters.copy / __eq__ / to_ / from_parameter_dict_list / set_from_history, parameter_history.py "
+    "(append, get_parameters, number_of_records, to_dataframe / from_dataframe) and optimizer.py (standard-error loop), "
+    "tied by differential execution only",
     "numpy's log/exp/abs and IEEE double arithmetic as evaluator of the model's terms; mpmath as second evaluator",
     "scipy.optimize.least_squares keeps iterates inside the box it is given (trf, dogbox) — monitored on "
     "every recorded evaluation, not proved",
@@ -65,6 +78,33 @@ RULE = (
 
 INF = float("inf")
 NAN = float("nan")
+
+GEN_FILE = core.LEAN / "GlotaranModel" / "Generated" / "C11Fns.lean"
+
+
+def generate(ck):
+    """regenerate lean/GlotaranModel/Generated/C11Fns.lean (function-level translation of parameter.py / parameters.py /
+    parameter_history.py) from the source text of VERIF_REPO.  Source outside the translator's subset does not stop the
+    check: the function is emitted as `Py.Untranslatable`, the `generated_eq_model_*` theorems about it stop compiling and
+    the verdict logic takes over (failing-input search, else `no-failing-input-found`)."""
+    results, texts = gen.translate_all(core.REPO)
+    text = gen.render(results)
+    GEN_FILE.parent.mkdir(parents=True, exist_ok=True)
+    if not GEN_FILE.exists() or GEN_FILE.read_text() != text:
+        GEN_FILE.write_text(text)
+    broken = {r.qual: r.reason for r in results if isinstance(r, gen.Broken)}
+    if broken:
+        ck.extra["untranslatable"] = broken
+        for k, v in broken.items():
+            print(f"[{PROP}] translator: {k} is outside the translated subset ({v}); its generated_eq_model theorem will not compile")
+    return [{
+        "table": "function-level transcription (lean/GlotaranModel/Generated/C11Fns.lean)",
+        "source": gen.SOURCES,
+        "source_sha1": gen.source_sha1(texts),
+        "sha1": hashlib.sha1(text.encode()).hexdigest(),
+        "functions": [r.qual for r in results if not isinstance(r, gen.Broken)],
+        "untranslatable": {r.qual: r.reason for r in results if isinstance(r, gen.Broken)},
+    }]
 
 
 # ------------------------------------------------------------------------------------------
@@ -224,6 +264,16 @@ def gen_spec(rng, n=None, finite_only=False):
                 lo = rng.choice([0.0, 1.0, -1.0, -INF, 0.0])
             if nonneg and rng.random() < 0.15:
                 hi = rng.choice([1.0, INF, 1.0 if value <= 1 else value])
+        if not finite_only and math.isfinite(value):
+            r2 = rng.random()
+            if r2 < 0.04 and math.isfinite(hi):          # start above the box
+                value = hi + abs(hi) * 0.5 + 1.0
+            elif r2 < 0.08 and math.isfinite(lo):        # start below the box
+                value = lo - abs(lo) * 0.5 - (0.0 if nonneg and lo > 0 else 1.0)
+                if nonneg and lo > 0:
+                    value = lo * 0.5
+            elif r2 < 0.11 and math.isfinite(lo) and math.isfinite(hi) and lo < hi:   # reversed box
+                lo, hi = hi, lo
         vary = rng.random() < 0.65
         expr = None
         plain = [s for s in spec if s["expr"] is None and s["value"] == s["value"] and abs(s["value"]) != INF]
@@ -485,7 +535,11 @@ def jobs_for(ck, spec, route, ops_json=None):
             h.append(ps, 4)
             idx = len(xs) % 2
             q2 = ps.copy()
-            q2.set_from_history(h, idx - 2)     # python-style negative index, as Optimizer uses
+            try:
+                q2.set_from_history(h, idx - 2)     # python-style negative index, as Optimizer uses
+            except Exception as e:
+                ck.violation("history-index", f"set_from_history(history, {idx - 2}) on a history of 2 records raised {e!r}",
+                             {**case0, "op": "fromhistory", "ops": [op]})
             rows = [[float(x) for x in r] for r in h.parameters]
             finite_rows = all(math.isfinite(x) for x in rows[idx][1:]) or not any(s["expr"] for s in spec)
             if finite_rows:
@@ -521,6 +575,199 @@ def state_of_one(p):
     return {"label": p.label, "value": float(p.value), "min": float(p.minimum), "max": float(p.maximum),
             "nonneg": bool(p.non_negative), "vary": bool(p.vary), "expr": p.expression,
             "stderr": float(p.standard_error)}
+
+
+# ------------------------------------------------------------------------------------------
+# look-up, copies / dictionaries / equality, history access
+# ------------------------------------------------------------------------------------------
+def lookup_queries(labels):
+    qs = {"", "no.such", ".", "iteration"}
+    for l in labels:
+        qs.update([l, l.rsplit(".", 1)[0], l.split(".")[-1], l.split(".")[0], l + ".1", l[:-1], l + "x", l.upper(), l + "."])
+    return sorted(qs)
+
+
+def extra_jobs(ck, spec, route):
+    """Jobs (and the model-independent oracle) for Parameters.has / get, copy, to/from_parameter_dict_list, __eq__,
+    ParameterHistory.to_dataframe / from_dataframe / get_parameters / number_of_records and set_from_history with Python
+    indices.  Every random choice derives from the specification itself, so a replay reproduces the case."""
+    import random
+    from glotaran.parameter import ParameterHistory, Parameters
+    from glotaran.parameter.parameters import ParameterNotFoundException
+
+    r = random.Random("extra:" + json.dumps(spec_json(spec), sort_keys=True) + route)
+    case0 = {"spec": spec_json(spec), "route": route}
+    jobs = []
+    ps = build(spec, route)
+    state = state_of(ps)
+    pstate, table = proto_state(state), proto_table(spec)
+    labels = [s["label"] for s in state]
+    has_expr = any(s["expr"] is not None for s in spec)
+    # --- look-up: full labels, group paths, short labels, prefixes, unknown
+    queries = lookup_queries(labels)
+    if len(queries) > 14:
+        keep = {"", *labels[:3], *[l.rsplit(".", 1)[0] for l in labels[:3]], *[l.split(".")[-1] for l in labels[:2]]}
+        queries = sorted(keep | set(r.sample([x for x in queries if x not in keep], 6)))
+    for qy in queries:
+        got_has = bool(ps.has(qy))
+        try:
+            got = state_of_one(ps.get(qy))
+        except ParameterNotFoundException as e:
+            got = "notfound:" + enc(str(e).replace("Cannot find parameter ", "", 1))
+        ck.oracle_evals += 1
+        if got_has != (qy in labels) or (isinstance(got, dict)) != (qy in labels) or (isinstance(got, dict) and got["label"] != qy):
+            ck.violation("lookup-not-exact", f"has({qy!r}) = {got_has}, get({qy!r}) -> {got if isinstance(got, str) else got['label']!r}; "
+                         f"declared labels {labels}", {**case0, "op": "lookup", "query": qy})
+        jobs.append(Job(f"has {pstate} {enc(qy)}", "has", got_has, {**case0, "op": "has", "query": qy}))
+        jobs.append(Job(f"get {pstate} {enc(qy)}", "get", got, {**case0, "op": "get", "query": qy}))
+    # --- oracle: a fresh (well formed, up to date) set is reproduced by copy() and by the dictionary round trip
+    c = ps.copy()
+    d = Parameters.from_parameter_dict_list(ps.to_parameter_dict_list())
+    ck.oracle_evals += 2
+    for name, other in (("copy()", c), ("from_parameter_dict_list(to_parameter_dict_list())", d)):
+        why = states_equal(state, state_of(other))
+        if why or not (other == ps):
+            ck.violation("copy-not-identity", f"{name} of a freshly built parameter set differs from it: {why or '== is False'}",
+                         {**case0, "op": "copy-identity"})
+    for l in labels:
+        if c.get(l) is ps.get(l):
+            ck.violation("copy-aliases-original", f"copy() shares the Parameter object of {l!r} with the original",
+                         {**case0, "op": "copy-alias"})
+            break
+    if labels:
+        l = r.choice([x["label"] for x in state if x["expr"] is None] or labels)
+        before = state_of(ps)
+        c.get(l).value = 123.25
+        c.get(l).vary = not c.get(l).vary
+        if states_equal(before, state_of(ps)) is not None:
+            ck.violation("copy-aliases-original", f"changing {l!r} in the copy changed the original", {**case0, "op": "copy-alias"})
+    # --- copy / dictionaries after assignments: vary flipped (also on expression parameters), values changed so that
+    #     expression values are stale, standard errors set
+    ps2 = build(spec, route)
+    for p in ps2.all():
+        x = r.random()
+        if x < 0.3:
+            p.vary = not p.vary
+        if p.expression is None and has_expr and math.isfinite(p.value) and r.random() < 0.5:
+            p.value = float(r.choice([0.5, 2.0, 3.0, 1.0, 0.125]))
+        if r.random() < 0.4:
+            p.standard_error = float(r.choice([0.25, 0.0, 1e-3, INF]))
+    st2 = state_of(ps2)
+    pst2 = proto_state(st2)
+    st_copy = state_of(ps2.copy())
+    st_dict = state_of(Parameters.from_parameter_dict_list(ps2.to_parameter_dict_list()))
+    jobs.append(Job(f"copy {pst2} {table}", "params", st_copy, {**case0, "op": "copy", "state": spec_json_state(st2)}))
+    jobs.append(Job(f"dictlist {pst2} {table}", "params", st_dict, {**case0, "op": "dictlist", "state": spec_json_state(st2)}))
+    # oracle: a copy carries every attribute of every parameter; only what defines an expression parameter's value and
+    # freedom is recomputed (its value from the expression, vary = False)
+    ck.oracle_evals += 2
+    for name, got in (("copy()", st_copy), ("from_parameter_dict_list(to_parameter_dict_list())", st_dict)):
+        why = None
+        if [x["label"] for x in got] != [x["label"] for x in st2]:
+            why = "labels / order differ"
+        for a, bb in zip(st2, got):
+            if why:
+                break
+            for k in ("min", "max", "stderr", "nonneg", "expr") + (("value", "vary") if a["expr"] is None else ()):
+                if not (same(a[k], bb[k]) if k in ("min", "max", "stderr", "value") else a[k] == bb[k]):
+                    why = f"{a['label']}.{k}: {a[k]!r} -> {bb[k]!r}"
+            if a["expr"] and bb["vary"]:
+                why = f"{a['label']}: expression parameter with vary = True in the copy"
+        if why:
+            ck.violation("copy-changes-attribute", f"{name} after attribute assignments: {why}",
+                         {**case0, "op": "copy-attributes", "state": spec_json_state(st2)})
+    # --- equality
+    variants = [("copy", ps2.copy())]
+    dicts = ps2.to_parameter_dict_list()
+    if len(dicts) > 1:
+        for name, ds in (("reversed", list(reversed(dicts))), ("dropped", dicts[:-1])):
+            try:
+                variants.append((name, Parameters.from_parameter_dict_list(ds)))
+            except ValueError:    # the dropped parameter was referred to by an expression
+                pass
+    b = ps2.copy()
+    tgt = r.choice(list(b.all()))
+    attr = r.choice(["value", "standard_error", "minimum", "maximum", "vary", "non_negative", "value", "standard_error"])
+    cur = getattr(tgt, attr)
+    if attr in ("vary", "non_negative"):
+        setattr(tgt, attr, not cur)
+    else:
+        setattr(tgt, attr, r.choice([NAN, 1.0, float(cur) + 1.0 if math.isfinite(float(cur)) else 0.0, -float(cur) if cur == cur else NAN, float(cur)]))
+    variants.append((f"changed-{attr}", b))
+    b2 = [dict(x) for x in dicts]
+    b2[r.randrange(len(b2))]["label"] = "zz9"
+    if "zz9" not in labels:
+        try:
+            variants.append(("relabelled", Parameters.from_parameter_dict_list(b2)))
+        except ValueError:        # the relabelled parameter was referred to by an expression
+            pass
+    for name, other in variants:
+        sto = state_of(other)
+        ck.oracle_evals += 1
+        by_o = {x["label"]: x for x in sto}
+        want_eq = sorted(by_o) == sorted(x["label"] for x in st2) and all(
+            all((same(a[k], by_o[a["label"]][k]) if k in ("value", "min", "max", "stderr") else a[k] == by_o[a["label"]][k])
+                for k in ("value", "min", "max", "stderr", "nonneg", "vary", "expr")) for a in st2)
+        if bool(ps2 == other) != want_eq:
+            ck.violation("eq-wrong", f"== answers {bool(ps2 == other)} for two parameter sets that "
+                         f"{'agree in' if want_eq else 'differ in'} labels / attributes (variant {name})",
+                         {**case0, "op": "eq-oracle", "variant": name, "state": spec_json_state(st2), "other": spec_json_state(sto)})
+        jobs.append(Job(f"eq {pst2} {proto_state(sto)}", "eq", bool(ps2 == other),
+                        {**case0, "op": "eq", "variant": name, "state": spec_json_state(st2), "other": spec_json_state(sto)}))
+        ck.count("eq:" + name.split("-")[0] + (":equal" if ps2 == other else ":different"))
+    # --- history: records of several sets, data frame round trip, access with Python indices, mapping back
+    free = [s["label"] for s in state if s["vary"]]
+    h = ParameterHistory()
+    n = r.randint(1, 3)
+    recorded = []
+    for k in range(n):
+        qk = ps.copy()
+        if free and k:
+            qk.set_from_label_and_value_arrays(free, np.asarray([r.uniform(-3, 3) for _ in free]))
+        h.append(qk, k)
+        recorded.append(state_of(qk))
+    hl = list(h.parameter_labels)
+    rows = [[float(x) for x in row] for row in h.parameters]
+    h2 = ParameterHistory.from_dataframe(h.to_dataframe())
+    prows = lst(lst(ext(x) for x in row) for row in rows)
+    for i in range(-n - 1, n + 1):
+        try:
+            got = [float(x) for x in h2.get_parameters(i)]
+        except IndexError:
+            got = "indexerror"
+        jobs.append(Job(f"histget {strs(hl)} {prows} {i}", "histget",
+                        (int(h2.number_of_records), [str(x) for x in h2.parameter_labels], got, len(h2)),
+                        {**case0, "op": "histget", "index": i, "records": n}))
+        if (got == "indexerror") != (not -n <= i < n):
+            ck.violation("history-index", f"get_parameters({i}) on a history of {n} records "
+                         f"{'raised IndexError' if got == 'indexerror' else 'did not raise'}",
+                         {**case0, "op": "history-oracle", "index": i, "records": n})
+        q = ps.copy()
+        try:
+            q.set_from_history(h2, i)
+            got = ("ok", state_of(q))
+        except IndexError:
+            got = "indexerror"
+        ck.oracle_evals += 1
+        if got != "indexerror":
+            # oracle: row i belongs to record i (mod n), every non-expression value comes back
+            want = recorded[i % n]
+            for a, bb in zip(want, got[1]):
+                if a["expr"] is None and not (close_roundtrip(a["value"], bb["value"], a["nonneg"])
+                                               or (a["nonneg"] and not (math.isfinite(a["value"]) and a["value"] > 0))):
+                    ck.violation("history-row-maps-to-wrong-record", f"set_from_history(h, {i}) with {n} records gives "
+                                 f"{a['label']} = {bb['value']!r}, record {i % n} was taken at {a['value']!r}",
+                                 {**case0, "op": "history-oracle", "index": i, "records": n})
+                    break
+        row = rows[i % n] if -n <= i < n else []
+        if not has_expr or all(math.isfinite(x) for x in row[1:]):
+            jobs.append(Job(f"fromhistoryat {pstate} {table} {strs(hl)} {prows} {i}", "sethist", got,
+                            {**case0, "op": "fromhistoryat", "index": i, "records": n}))
+    return jobs
+
+
+def spec_json_state(state):
+    return [{**s, "value": fj(s["value"]), "min": fj(s["min"]), "max": fj(s["max"]), "stderr": fj(s["stderr"])} for s in state]
 
 
 def compare_jobs(ck, jobs, te):
@@ -562,6 +809,36 @@ def compare_jobs(ck, jobs, te):
                         diff = f"history rows {rows} vs {mrows}"
         elif j.kind == "stderr":
             diff = states_equal(j.impl, parse_params(t[1], te))
+        elif j.kind in ("has", "eq"):
+            if (t[1] == "T") != j.impl:
+                diff = f"{j.kind}: implementation {j.impl}, model {t[1]}"
+        elif j.kind == "get":
+            if isinstance(j.impl, str) or isinstance(t[1], str):
+                if j.impl != t[1]:
+                    diff = f"get: implementation {j.impl if isinstance(j.impl, str) else 'a parameter'}, model {t[1] if isinstance(t[1], str) else 'a parameter'}"
+            else:
+                diff = states_equal([j.impl], parse_params([t[1]], te))
+        elif j.kind == "params":
+            diff = states_equal(j.impl, parse_params(t[1], te))
+        elif j.kind == "histget":
+            nrec, hl, got, ln = j.impl
+            if int(t[1]) != nrec or ln != nrec:
+                diff = f"number_of_records {nrec} / len {ln} vs {t[1]}"
+            elif [core.dec(x) for x in t[2]] != hl:
+                diff = f"data-frame labels {hl} vs {t[2]}"
+            elif isinstance(got, str) or isinstance(t[3], str):
+                if got != t[3]:
+                    diff = f"get_parameters: implementation {got}, model {t[3]}"
+            elif not same_list(got, [te.value(x) for x in t[3]]):
+                diff = f"get_parameters {got} vs {[te.value(x) for x in t[3]]}"
+        elif j.kind == "sethist":
+            if isinstance(j.impl, str) or t[1] == "indexerror":
+                if not (j.impl == "indexerror" and t[1] == "indexerror"):
+                    diff = f"set_from_history: implementation {j.impl if isinstance(j.impl, str) else 'ok'}, model {t[1]}"
+            elif t[1] != j.impl[0]:
+                diff = f"status {j.impl[0]} vs {t[1]}"
+            else:
+                diff = states_equal(j.impl[1], parse_params(t[2], te))
         if diff:
             bad += 1
             if len(ck.disagreements) < 8:
@@ -888,6 +1165,13 @@ def run_opt_case(ck, case):
         return None
 
     for l in want_free:
+        if by[l]["nonneg"] and opt.get(l).value == 0.0 and not by[l]["min"] > 0 \
+                and any(float(r[order.index(l) + 1]) < UNDERFLOW for r in hist.parameters):
+            # the recorded finding (exp underflow of the optimiser value) reaching the result itself
+            ck.violation("nonneg-underflow-to-zero", f"optimised non-negative {l} is exactly 0.0 (optimiser value below {UNDERFLOW})",
+                         payload)
+            ck.count("opt:nonneg-underflow-to-zero")
+            continue
         why = in_box(l, opt.get(l).value)
         if why:
             return viol("result-outside-box", f"optimised {l} = {opt.get(l).value!r}: {why}")
@@ -939,6 +1223,13 @@ def run_opt_case(ck, case):
         v = _exp(x) if s["nonneg"] else float(x)
         if not (same(q.get(l).value, v) or abs(q.get(l).value - v) <= 4 * ULP * abs(v)):
             return viol("set-from-history", f"set_from_history(row {ri}) gives {l} = {q.get(l).value!r}, expected {v!r}")
+    # the history of a real optimisation through its data frame: same records, same access
+    h2 = type(hist).from_dataframe(hist.to_dataframe())
+    if h2.number_of_records != len(rows) or len(h2) != len(rows) or [str(x) for x in h2.parameter_labels] != list(hist.parameter_labels) \
+            or not all(same_list(a, b) for a, b in zip(rows, h2.parameters)) \
+            or not same_list(h2.get_parameters(-1), rows[-1]) or not same_list(h2.get_parameters(0), rows[0]):
+        return viol("history-dataframe", "ParameterHistory.from_dataframe(history.to_dataframe()) does not hold the records of the "
+                    f"history ({len(rows)} records) under the same indices")
     if not result.success:
         return result
     # --- Jacobian / covariance / standard errors: same ordering
@@ -996,7 +1287,7 @@ def run_opt_case(ck, case):
         s_, v = by[label], opt.get(label).value
         if not s_["nonneg"]:
             return e
-        lv = math.log(v + 1e-10) if v == 1.0 else math.log(v)
+        lv = math.log(v + 1e-10) if v == 1.0 else math.log(v) if v > 0 else -INF     # v == 0: the recorded underflow
         return v * (math.exp(e) - 1.0) if e < abs(lv) else abs(v)
 
     def near(a, b):
@@ -1149,6 +1440,56 @@ def expression_chain_probe(ck):
                 return
 
 
+def start_outside_box_probe(ck):
+    """The constructor accepts a start value outside [minimum, maximum] (and a reversed box) — theorem
+    start_value_handed_over_unvalidated.  What the statement needs: such a start is never *optimised* outside the box.  Observed:
+    scipy refuses x0 (`x0 is infeasible`), no evaluation takes place and create_result raises InitialParameterError.  A result
+    whose recorded iterates or optimum lie outside the box would be a violation."""
+    from glotaran.optimization.optimize import optimize
+    from glotaran.optimization.test.models import DecayModel
+    from glotaran.parameter import Parameters
+    from glotaran.project import Scheme
+    from glotaran.simulation import simulate
+    rng = ck.rng
+    kin = ["k.1", "k.2"]
+    mdl = {"megacomplex": {"m1": {"type": "simple-kinetic-test-mc", "is_index_dependent": False}},
+           "dataset": {"dataset1": {"megacomplex": ["m1"], "kinetic": kin}}}
+    sim = {"megacomplex": {"m1": {"type": "simple-kinetic-test-mc", "is_index_dependent": False},
+                           "m2": {"type": "simple-spectral-test-mc"}},
+           "dataset": {"dataset1": {"megacomplex": ["m1"], "global_megacomplex": ["m2"], "kinetic": kin}}}
+    wanted = Parameters.from_parameter_dict_list([{"label": "k.1", "value": 0.5}, {"label": "k.2", "value": 0.05}])
+    ds = simulate(DecayModel(**sim), "dataset1", wanted, {"global": np.asarray([1.0, 2.0, 3.0]), "model": np.linspace(0, 80, 40)})
+    for _ in range(ck.n(12, 120)):
+        method = rng.choice(["trf", "dogbox"])
+        nn = rng.random() < 0.5
+        kind = rng.choice(["above", "below", "reversed"])
+        lo, hi = 0.1, 0.6
+        v = {"above": hi * rng.uniform(1.01, 3), "below": lo * rng.uniform(0.1, 0.99), "reversed": rng.uniform(lo, hi)}[kind]
+        if kind == "reversed":
+            lo, hi = hi, lo
+        case = {"op": "start-outside-box", "method": method, "nonneg": nn, "value": fj(v), "min": fj(lo), "max": fj(hi)}
+        ck.case(("start-outside-box", json.dumps(case, sort_keys=True)), True)
+        ck.oracle_evals += 1
+        init = Parameters.from_parameter_dict_list([{"label": "k.1", "value": v, "minimum": lo, "maximum": hi, "non_negative": nn},
+                                                    {"label": "k.2", "value": 0.06}])
+        scheme = Scheme(model=DecayModel(**mdl), parameters=init, data={"dataset1": ds}, maximum_number_function_evaluations=5,
+                        optimization_method=METHODS[method])
+        try:
+            result = optimize(scheme, verbose=False, raise_exception=False)
+        except Exception as e:
+            ck.count(f"start-outside-box:{kind}:refused:{type(e).__name__}")
+            continue
+        ck.count(f"start-outside-box:{kind}:result")
+        vals = [result.optimized_parameters.get("k.1").value]
+        idx = list(result.parameter_history.parameter_labels).index("k.1")
+        vals += [(_exp(row[idx]) if nn else float(row[idx])) for row in result.parameter_history.parameters[1:]]
+        bad = [x for x in vals if not (min(lo, hi) * (1 - 1e-12) <= x <= max(lo, hi) * (1 + 1e-12))]
+        if kind == "reversed" or bad:
+            ck.violation("start-outside-box-optimised", f"an optimisation started at {v!r} outside / with the reversed box [{lo!r}, {hi!r}] "
+                         f"produced a result with k.1 values {vals[:4]}", case)
+            return
+
+
 def run(ck):
     te = TermEval()
     jobs_all = []
@@ -1156,6 +1497,7 @@ def run(ck):
         warnings.simplefilter("ignore")
         typed_bounds_probe(ck)
         expression_chain_probe(ck)
+        start_outside_box_probe(ck)
     specs = [(s, "dicts") for s in FIXED_SPECS]
     for c in core.load_corpus(PROP):
         if c.get("kind") == "opt":
@@ -1166,11 +1508,17 @@ def run(ck):
         spec = gen_spec(ck.rng)
         route = pick_route(ck.rng, spec)
         specs.append((reorder(spec, route), route))
+    specs_done = []
     for spec, route in specs:
         order = [s["label"] for s in spec]
         oracle_pset(ck, spec, route, order)
         jobs, ps, state = jobs_for(ck, spec, route)
         jobs_all += jobs
+        if len(specs_done) < ck.n(200, 2500):        # look-up / copy / equality / history stream on the first sets
+            specs_done.append(1)
+            ex = extra_jobs(ck, spec, route)
+            jobs_all += ex
+            jobs += ex
         kinds = {("free" if s["vary"] and s["expr"] is None else "expr" if s["expr"] else "fixed") for s in spec}
         nontrivial = len(kinds) > 1 or any(s["nonneg"] for s in spec)
         for j in jobs:
@@ -1250,6 +1598,8 @@ def search(ck):
         route = pick_route(ck.rng, spec)
         spec = reorder(spec, route)
         oracle_pset(ck, spec, route, [s["label"] for s in spec])
+        if i < ck.n(300, 3000):
+            extra_jobs(ck, spec, route)          # look-up / copy / equality / history oracles (the jobs are not needed here)
         if ck.violations:
             return
     for i in range(ck.n(250, 1500)):
@@ -1271,6 +1621,12 @@ def replay(ck, case):
         if c.get("op") == "underflow-witness":
             underflow_witness(ck)
             continue
+        if c.get("op") == "start-outside-box":
+            ck.rng.seed(f"{PROP}:{case.get('seed', 0)}")
+            typed_bounds_probe(ck)
+            expression_chain_probe(ck)
+            start_outside_box_probe(ck)
+            continue
         if c.get("op") in ("typed-bounds", "expression-chain"):
             # the probes are self-contained streams: re-run them (the recorded input is among what they generate for this seed)
             ck.rng.seed(f"{PROP}:{case.get('seed', 0)}")
@@ -1281,6 +1637,7 @@ def replay(ck, case):
         route = c.get("route", "dicts")
         oracle_pset(ck, spec, route, [s["label"] for s in spec])
         jobs, _, _ = jobs_for(ck, spec, route, ops_json=c.get("ops"))
+        jobs += extra_jobs(ck, spec, route)
         compare_jobs(ck, jobs, te)
     for d in ck.disagreements:
         print("DISAGREEMENT", d["what"])
